@@ -139,3 +139,10 @@ reg("C14",
     level_note="Trusted: numpy; vf/checks/c14.py geometry. Queries whose convention is ambiguous (all longitudes in [0,180]) and whose two readings select different stations, stations within 1e-9 of a box edge / meridian seam / the tolerance, and equidistant candidates are inconclusive.",
     rule="case = (method x station layout x dataset convention x query convention x tolerance x precomputed [x max_sites]); distinct = distinct keys",
     must_observe=["nearest", "idw", "bbox"])
+
+reg("C15",
+    technique="runtime reference-model monitor on the construction helpers: requested Hs measured by the real accessor, shape identities, spreading normalisation and equality with an independently sampled cos^2s reference, 2-D -> 1-D integration, measured vs requested direction/spread",
+    level_text="For random parameter sets (hs 0.01-20 m, fp inside the grid, gamma 1-7, depth 1-1e5 m, gw 0.005-0.1; scalars and DataArrays over an extra dimension; log, linear and irregular frequency grids; full-circle direction grids of 8-360 bins starting anywhere; mean directions anywhere and within 1 deg of the 0/360 seam; spreads 5-80 deg) the real constructors are called and the result measured with the real accessor: Hs equals the request to 1e-9, densities are non-negative, JONSWAP(gamma=1)==PM, TMA(1e5 m)==JONSWAP, every spreading function is non-negative and integrates to one, equals the published cos^2s sampled on the grid, the 2-D product integrates back to the shape to 1e-12, measured dm/dspr equal those of the sampled ideal everywhere and the requested ones (0.01 deg) where the grid resolves the spread. Held = on the executions observed.",
+    level_note="'Equal to the requested spread' can only hold up to the quadrature of the grid: it is decided in the resolved zone dd <= sigma/2 and sigma <= 50 deg and counted inconclusive outside it (DESIGN.md C15).",
+    rule="case = (shape x grid family/size x scalar|DataArray parameters x coordinate container), (spreading: nd x dm placement x parameter kind x resolved|unresolved); distinct = distinct keys",
+    must_observe=["shape_hs", "jonswap_gamma1_is_pm", "tma_deep_is_jonswap", "spread_normalised", "spread_is_cos2s", "asymmetric_normalised", "oned_is_shape", "measured_equals_sampled_ideal", "measured_equals_requested"])
